@@ -8,8 +8,8 @@ sys.path.insert(0, os.path.dirname(os.path.abspath(__file__)))
 import vlib, refs, pairs
 
 SIZES = {  # (quick, thorough) number of pairs per stratum
-    "uniform": (120, 3000), "threshold": (260, 8000), "grey": (80, 4000), "named": (60, 2500),
-    "nearbg": (80, 2500), "hair": (60, 1500), "witness": (900, 20000), "spell": (130, 4000), "isolum": (150, 12000), "hairline": (70, 3000), "corner": (120, 8000), "zeroone": (40, 600), "edge": (120, 6000),
+    "uniform": (120, 2500), "threshold": (260, 6000), "grey": (80, 3000), "named": (60, 2000),
+    "nearbg": (80, 2000), "hair": (60, 1200), "witness": (900, 20000), "spell": (130, 3000), "isolum": (150, 3000), "hairline": (70, 1500), "corner": (120, 2500), "zeroone": (40, 400), "edge": (120, 2500),
 }
 
 
